@@ -9,8 +9,9 @@
 (* Items are drawn as non-decreasing sequences of catalogue indices (the   *)
 (* binder runs every case in two clip orders, and LawPermInv shows the     *)
 (* definitions do not depend on the order).  Plan: sequence of             *)
-(* [kind ("sl" | "ml"), C, n, stride]: a 1/stride sample of the (C, n)     *)
-(* multisets (stride 1 = all).                                             *)
+(* [kind, C, n, stride]: a 1/stride sample of the (C, n) multisets         *)
+(* (stride 1 = all); kind "sl" = the three single-label tasks, "ml" = the  *)
+(* multilabel task, or one of "cc" | "sec" | "sed".                        *)
 (***************************************************************************)
 EXTENDS Metrics, TLC, Json
 CONSTANTS U, Plan, TableVariant, MapVariant
@@ -39,13 +40,13 @@ ShapesOf(n) ==
 FromSizes(sz) == [k \in 1..Len(sz) |-> [j \in 1..sz[k] |-> SumSeq(SubSeq(sz, 1, k - 1)) + j]]
 OneEach(n)    == [k \in 1..n |-> <<k>>]
 
-TasksOf(kind) == IF kind = "sl" THEN {"cc", "sec", "sed"} ELSE {"cml"}
+TasksOf(kind) == CASE kind = "sl" -> {"cc", "sec", "sed"} [] kind = "ml" -> {"cml"} [] OTHER -> {kind}   \* or one single-label task
 TaskNo(task)  == CASE task = "cc" -> 0 [] task = "cml" -> 0 [] task = "sec" -> 1 [] task = "sed" -> 2
 Labelled(items) == \E i \in DOMAIN items : items[i].t # 0
 
 CasesOf(e) ==
-    LET V == IF e.kind = "sl" THEN SlValid(e.C) ELSE MlRaw(e.C)
-        item(r) == IF e.kind = "sl" THEN SlItem(r, e.C) ELSE MlItem(r, e.C)
+    LET V == IF e.kind # "ml" THEN SlValid(e.C) ELSE MlRaw(e.C)
+        item(r) == IF e.kind # "ml" THEN SlItem(r, e.C) ELSE MlItem(r, e.C)
         sh == ShapesOf(e.n)
     IN  {[task  |-> task, C |-> e.C, u |-> U,
           items |-> [i \in 1..e.n |-> item(rs[i])],
@@ -148,11 +149,12 @@ PlanThorough ==
     << [kind |-> "sl", C |-> 1, n |-> 1, stride |-> 1], [kind |-> "sl", C |-> 1, n |-> 2, stride |-> 1],
        [kind |-> "sl", C |-> 1, n |-> 3, stride |-> 1],
        [kind |-> "sl", C |-> 2, n |-> 1, stride |-> 1], [kind |-> "sl", C |-> 2, n |-> 2, stride |-> 1],
-       [kind |-> "sl", C |-> 2, n |-> 3, stride |-> 3],
-       [kind |-> "sl", C |-> 3, n |-> 1, stride |-> 1], [kind |-> "sl", C |-> 3, n |-> 2, stride |-> 3],
+       [kind |-> "cc", C |-> 2, n |-> 3, stride |-> 2],
+       [kind |-> "sec", C |-> 2, n |-> 3, stride |-> 8], [kind |-> "sed", C |-> 2, n |-> 3, stride |-> 8],
+       [kind |-> "sl", C |-> 3, n |-> 1, stride |-> 1], [kind |-> "sl", C |-> 3, n |-> 2, stride |-> 4],
        [kind |-> "ml", C |-> 1, n |-> 1, stride |-> 1], [kind |-> "ml", C |-> 1, n |-> 2, stride |-> 1],
        [kind |-> "ml", C |-> 1, n |-> 3, stride |-> 1],
        [kind |-> "ml", C |-> 2, n |-> 1, stride |-> 1], [kind |-> "ml", C |-> 2, n |-> 2, stride |-> 1],
-       [kind |-> "ml", C |-> 2, n |-> 3, stride |-> 32],
-       [kind |-> "ml", C |-> 3, n |-> 1, stride |-> 1], [kind |-> "ml", C |-> 3, n |-> 2, stride |-> 64] >>
+       [kind |-> "ml", C |-> 2, n |-> 3, stride |-> 64],
+       [kind |-> "ml", C |-> 3, n |-> 1, stride |-> 1], [kind |-> "ml", C |-> 3, n |-> 2, stride |-> 128] >>
 =============================================================================
